@@ -36,11 +36,14 @@ func mapLoop(name string) []any {
 }
 
 func genSession(r *rand.Rand, i int) J {
-	g := &pgen{r: r, budget: 0}
+	g := &pgen{r: r, budget: 0, rich: true}
 	nenv := 2 + r.Intn(2)
 	envs := []any{}
+	reprs := []any{}
 	for j := 0; j < nenv; j++ {
-		e := g.env()
+		e, rp := g.richEnv()
+		delete(rp, "g") // (an ordered map is not equal to itself: keep g a plain map in histories)
+		reprs = append(reprs, rp)
 		// q: integers, in every other environment with a zero after a few elements (a render that fails inside a loop)
 		q := []any{vInt(1), vInt(2), vInt(3), vInt(4), vInt(5)}[:3+r.Intn(3)]
 		if j%2 == 1 {
@@ -76,7 +79,7 @@ func genSession(r *rand.Rand, i int) J {
 		}
 		ops = append(ops, op)
 	}
-	return J{"kind": "session", "templates": templates, "envs": envs, "ops": ops}
+	return J{"kind": "session", "templates": templates, "envs": envs, "reprs": reprs, "ops": ops}
 }
 
 // sessions that iterate maps: the order is not decided by C11 but must be the same every time (C02)
